@@ -347,6 +347,13 @@ def direct_byron_wallet(a):
     root = cbor2.dumps([0, [0, pub + cc], attrs])
     if dec[:28] != blake224(hashlib.sha3_256(root).digest()):
         return "Byron address root hash does not commit to the derived key and chain code"
+    # the path attribute decrypts with the published parameters (PBKDF2 "address-hashing" x 500, nonce "serokellfore")
+    _, mpub, mcc, _ = ref_walk(2, seed, b"", [], 0, [])
+    key = hashlib.pbkdf2_hmac("sha512", mpub + mcc, b"address-hashing", 500, 32)
+    pt = OC.chacha_dec(key, b"serokellfore", b"", dec[28:-16], dec[-16:])
+    want = b"\x9f" + cbor2.dumps(i1 | HARD) + cbor2.dumps(i2 | HARD) + b"\xff"
+    if pt != [want]:
+        return "encrypted path attribute does not decrypt to the CBOR path under the published parameters"
     return None
 
 
